@@ -1,5 +1,7 @@
+import rootmode
 from codecmode import run
 
 
 def main(tier, seed, replay):
-    return run("C13", "c13", tier, seed, replay, "Props.C13", "corr:defaults (model decoders vs the readers on documents omitting defaulted fields)")
+    return run("C13", "c13", tier, seed, replay, "Props.C13", "corr:defaults (model decoders vs the readers on documents omitting defaulted fields)",
+               post=rootmode.post("c13"))
